@@ -480,6 +480,27 @@ func runMC(s *part, root, scratch, tier string, passthru []string) *PartResult {
 	return mergeMC(s, root, tier, results, total, notStarted, time.Since(start))
 }
 
+// findingKey refines a scenario class by the kind of failure: a panic inside
+// the code under test, or an oracle message that names its own sub-key as
+// "[key=...] ...".
+func findingKey(class, msg string) string {
+	if strings.HasPrefix(msg, "[key=") {
+		if i := strings.Index(msg, "]"); i > 0 {
+			return class + "/" + msg[5:i]
+		}
+	}
+	if strings.HasPrefix(msg, "panic in thread ") {
+		if i := strings.Index(msg, ": "); i > 0 {
+			m := msg[i+2:]
+			if j := strings.Index(m, "\n"); j > 0 {
+				m = m[:j]
+			}
+			return class + "/panic:" + strings.ReplaceAll(m, " ", "_")
+		}
+	}
+	return class
+}
+
 func tierOfReplay(path, def string) string {
 	b, err := os.ReadFile(path)
 	if err != nil {
@@ -535,7 +556,7 @@ func mergeMC(s *part, root, tier string, results []hx.ShardResult, total, notSta
 			}
 			if st.Exhaustive {
 				complete++
-			} else if len(st.Violations) == 0 {
+			} else {
 				capped = append(capped, fmt.Sprintf("%s (%s; bound completed %d of %d)", r.Name, st.CapHit, st.BoundCompleted, r.Bound))
 			}
 			if len(st.Violations) == 0 && (minBound == -2 || st.BoundCompleted < minBound) {
@@ -560,7 +581,7 @@ func mergeMC(s *part, root, tier string, results []hx.ShardResult, total, notSta
 				if !v.Stable {
 					fatal("nondeterministic violation (machinery fault, not reported as a violation):\n%s", msg)
 				}
-				findings = append(findings, evid.Finding{Key: r.Class, Msg: msg, Replay: path})
+				findings = append(findings, evid.Finding{Key: findingKey(r.Class, v.Msg), Msg: msg, Replay: path})
 			}
 		}
 	}
@@ -568,7 +589,7 @@ func mergeMC(s *part, root, tier string, results []hx.ShardResult, total, notSta
 	if len(capped) > 12 {
 		capped = append(capped[:12], fmt.Sprintf("... and %d more", len(capped)-12))
 	}
-	exhaustive := skipped == 0 && complete+len(findings) == ran && len(findings) == 0
+	exhaustive := skipped == 0 && complete == ran
 	if len(samples) == 0 {
 		samples = append(samples, "no scenario ran more than one execution")
 	}
